@@ -37,6 +37,27 @@ theorem addSeg_comm (S : List Seg) (a b c d t : Int) :
     · exact Or.inr h
     · exact Or.inl (Or.inr h)
 
+/-! ## The canonical form used by the correspondence preserves the covered set -/
+
+/-- **canon_preserves_inside.**  `canon` (drop empty segments, sort, merge overlapping and touching
+    segments) never changes the answer of `inside`.  The driver compares `canon` of the
+    implementation's and of the model's segment list; hence whenever it reports no difference the
+    two lists cover the same instants (`canon_eq_same_denotation`), while a merely differently
+    split list is not a difference. -/
+theorem canon_preserves_inside (S : List Seg) (t : Int) : inside (canon S) t = inside S t :=
+  canon_inside S t
+
+/-- **canon_eq_same_denotation.**  Equal canonical forms ⇒ same covered set. -/
+theorem canon_eq_same_denotation (A B : List Seg) (h : canon A = canon B) (t : Int) :
+    inside A t = inside B t := by
+  rw [← canon_preserves_inside A, ← canon_preserves_inside B, h]
+
+example : canon [(5, 9), (3, 3), (0, 5), (20, 22), (8, 12), (7, 4)] = [(0, 12), (20, 22)] := by decide
+/-- touching segments kept apart (what a non-merging AddSegment would store) have the same canonical form -/
+example : canon [(0, 5), (5, 9)] = canon [(0, 9)] := by decide
+/-- a list whose union differs is told apart -/
+example : canon [(0, 5), (6, 9)] ≠ canon [(0, 9)] := by decide
+
 /-! ## RemoveSegment: an exclusion removes exactly the excluded interval
 
   "… even when it shares its begin or end with a range."  Until commit 9b846ed the pinned code
